@@ -24,7 +24,11 @@ def sim_mpc_proxy(c, a):
     share = c / (c + a + 1.0)
     return share
 
-sim = hetblocks.hh_sim.hh.add_hetinputs([sim_income, sim_grids]).add_hetoutputs([sim_mpc_proxy])
+def sim_asset_income(a, r, w):
+    ainc = a * r + 0.1 * w          # a hetoutput that takes aggregate inputs DIRECTLY (not only through the policies)
+    return ainc
+
+sim = hetblocks.hh_sim.hh.add_hetinputs([sim_income, sim_grids]).add_hetoutputs([sim_mpc_proxy, sim_asset_income])
 SIM_CALIB = dict(min_a=0.0, max_a=60.0, rho_e=0.9, sd_e=0.6, n_a=24, n_e=3, w=1.0, r=0.02, beta=0.95, eis=0.8)
 
 # ---- the same household as a backward-function block and as a sequence of stages (as in tests/base/test_stage_block.py) ----
@@ -256,6 +260,17 @@ def two_asset_income(e_grid, tax, w, N):
     return z_grid
 
 twoasset = hetblocks.hh_twoasset.hh.add_hetinputs([two_asset_income, two_asset_grids])
+# ---- the same two-asset household as a stage block with a two-dimensional continuous choice ----
+from sequence_jacobian.blocks.support.stages import Continuous2D
+_ta_raw = hetblocks.hh_twoasset.hh.backward_fun.f
+
+def twoasset_stage_f(Va, Vb, a_grid, b_grid, z_grid, e_grid, k_grid, beta, eis, rb, ra, chi0, chi1, chi2, Psi1):
+    Va, Vb, a, b, c, uce = _ta_raw(Va, Vb, a_grid, b_grid, z_grid, e_grid, k_grid, beta, eis, rb, ra, chi0, chi1, chi2, Psi1)
+    return Va, Vb, a, b, c, uce
+
+twoasset_stage = StageBlock([ExogenousMaker('Pi', 0, 'exo'), Continuous2D(backward=['Vb', 'Va'], policy=['b', 'a'], f=twoasset_stage_f, name='portfolio')],
+                            name='hh2d', backward_init=hetblocks.hh_twoasset.hh_init,
+                            hetinputs=[hetblocks.hh_twoasset.marginal_cost_grid, two_asset_income, two_asset_grids])
 TWO_CALIB = dict(bmax=30.0, amax=80.0, kmax=1.0, nB=8, nA=10, nK=4, nZ=2, rho_z=0.9, sigma_z=0.5, tax=0.3, w=0.7, N=1.0,
                  beta=0.97, eis=0.5, rb=0.01, ra=0.015, chi0=0.25, chi1=6.0, chi2=2.0)
 '''
